@@ -163,11 +163,18 @@ pub fn gen_case(t: &mut Tape) -> Case {
     let perm = t.permutation(opts.len());
     let attr: String = perm.into_iter().map(|i| opts[i].clone()).collect::<Vec<_>>().join(", ");
     let trait_where = generic_trait && t.flip();
-    let tg = if generic_trait { if trait_where { "<U>" } else { "<U: ::core::fmt::Debug + Send + Sync + 'static>" } } else if lifetime_trait { "<'t>" } else { "" };
-    let tw = if trait_where { " where U: ::core::fmt::Debug + Send + Sync + 'static" } else { "" };
-    let targ = if generic_trait { "<i64>" } else if lifetime_trait { "<'static>" } else { "" };
+    // flavours of the trait's type parameter: plain, with a default (`= i64`, used through the default everywhere), or
+    // relaxed (`?Sized`, instantiated with `str` and passed as `&U`)
+    let generic_flavour = if generic_trait { t.weighted(&[3, 1, 2]) } else { 0 };
+    let ub = if generic_flavour == 2 { "?Sized + ::core::fmt::Debug + Send + Sync + 'static" } else { "::core::fmt::Debug + Send + Sync + 'static" };
+    let ud = if generic_flavour == 1 { " = i64" } else { "" };
+    let tg_owned = if generic_trait { if trait_where { format!("<U{ud}>") } else { format!("<U: {ub}{ud}>") } } else if lifetime_trait { "<'t>".to_string() } else { String::new() };
+    let tg = tg_owned.as_str();
+    let tw_owned = if trait_where { format!(" where U: {ub}") } else { String::new() };
+    let tw = tw_owned.as_str();
+    let targ = if generic_trait { ["<i64>", "", "<str>"][generic_flavour] } else if lifetime_trait { "<'static>" } else { "" };
     // with a lifetime-generic trait the extra trailing parameter is `u: &'t str`
-    let (u_decl, u_impl) = if lifetime_trait { ("u: &'t str", "u: &'static str") } else { ("u: U", "u: i64") };
+    let (u_decl, u_impl) = if lifetime_trait { ("u: &'t str", "u: &'static str") } else if generic_flavour == 2 { ("u: &U", "u: &str") } else { ("u: U", "u: i64") };
     let mut sups: Vec<&str> = vec![];
     if supertrait {
         sups.push("Sup");
@@ -187,8 +194,23 @@ pub fn gen_case(t: &mut Tape) -> Case {
     if dynamic && t.flip() {
         src.push_str(if selector == 3 { "use ::std::borrow::Borrow;\n" } else { "use ::std::convert::AsRef;\nuse ::std::ops::Deref;\n" });
     }
+    // the trait may come out of a `macro_rules!` expansion in which a method has two parameters with one spelling (one written
+    // in the macro, one passed in): different identifiers, told apart by their spans only
+    let hygiene: Option<(usize, usize, usize)> = methods
+        .iter()
+        .enumerate()
+        .find_map(|(mi, m)| {
+            let plain: Vec<usize> = m.params.iter().enumerate().filter(|(_, p)| p.pk == PK::Plain).map(|(i, _)| i).collect();
+            (plain.len() >= 2).then(|| (mi, plain[0], plain[plain.len() - 1]))
+        })
+        .filter(|_| t.chance(1, 6));
+    let mut trait_methods = methods.clone();
+    if let Some((mi, _, j)) = hygiene {
+        trait_methods[mi].params[j].name = "$p".to_string();
+        src.push_str("macro_rules! __mk_tr { ($p:ident) => {\n");
+    }
     src.push_str(&format!("/*GEN*/ #[::entrait::entrait({attr})]\n{at}pub trait Tr{tg}{sup_src}{tw} {{\n"));
-    for m in &methods {
+    for m in &trait_methods {
         src.push_str(&format!("    {};\n", m.sig(false).replace("u: U", u_decl)));
     }
     if let Some(dasync) = dflt {
@@ -198,6 +220,9 @@ pub fn gen_case(t: &mut Tape) -> Case {
     src.push_str(assoc_decl);
     src.push_str(borrow_decl);
     src.push_str("}\n");
+    if let Some((mi, i, _)) = hygiene {
+        src.push_str(&format!("}} }}\n__mk_tr!({});\n", methods[mi].params[i].name));
+    }
     // recording providers: Rec (Sync) and NsRec (!Sync)
     // a !Sync provider cannot implement a trait whose async methods return Send futures borrowing `&self`
     let ns_provider = !dynamic && (!any_async || no_send);
@@ -283,7 +308,7 @@ pub fn gen_case(t: &mut Tape) -> Case {
     ));
     src.push_str("pub fn run() -> Vec<String> {\n    let mut fails: Vec<String> = vec![];\n    let app = ::entrait::Impl::new(mk_app());\n");
     for (i, m) in methods.iter().enumerate() {
-        let args = m.call_args().replace("@U@", if lifetime_trait { "\"lit\"" } else { "777i64" });
+        let args = m.call_args().replace("@U@", if lifetime_trait || generic_flavour == 2 { "\"lit\"" } else { "777i64" });
         let wrap = |e: String| if m.is_async { format!("rt::block_on({e})") } else { e };
         let vec_decls: String = m.params.iter().enumerate().filter(|(_, p)| p.vt == VT::MutVec).map(|(k, _)| format!("let mut vec_{k}: Vec<i32> = vec![{}]; ", k + 1)).collect();
         let vec_names: Vec<String> = m.params.iter().enumerate().filter(|(_, p)| p.vt == VT::MutVec).map(|(k, _)| format!("vec_{k}")).collect();
@@ -363,6 +388,12 @@ pub fn gen_case(t: &mut Tape) -> Case {
     }
     if let Some(k) = borrow_kind {
         classes.push(["borrowed_return:receiver_elided", "borrowed_return:receiver_named", "borrowed_return:argument_named"][k]);
+    }
+    if hygiene.is_some() {
+        classes.push("trait_from_macro_rules_with_same_spelled_parameters");
+    }
+    if generic_flavour > 0 {
+        classes.push(["", "trait_type_parameter_with_default", "trait_type_parameter_maybe_sized"][generic_flavour]);
     }
     if trait_where || methods.iter().any(|m| m.has_gen && m.where_form) {
         classes.push("where_clause");
